@@ -179,7 +179,7 @@ func DecodeClaimsFromCBOR(buf []byte) (IClaims, error) {
 		// empty, and the decoding will proceed correctly. P1's -7500
 		// profile field will then be validated as part of the full
 		// claims decoding in UnmarshalCBOR() further down.
-		Profile string `cbor:"265,keyasint"`
+		Profile *string `cbor:"265,keyasint"`
 	}{}
 
 	err := dm.Unmarshal(buf, &selector)
@@ -194,9 +194,20 @@ func DecodeClaimsFromCBOR(buf []byte) (IClaims, error) {
 		return nil, errors.New("CBOR decoding of PSA claims failed: expected a CBOR map")
 	}
 
-	entry, ok := profilesRegister[selector.Profile]
+	// the default entry of the register (key "") stands for "no profile
+	// claim"; it must not be reachable by a token that carries an (empty)
+	// profile claim
+	name := ""
+	if selector.Profile != nil {
+		name = *selector.Profile
+		if name == "" {
+			return nil, fmt.Errorf("unknown profile: %q", name)
+		}
+	}
+
+	entry, ok := profilesRegister[name]
 	if !ok {
-		return nil, fmt.Errorf("unknown profile: %q", selector.Profile)
+		return nil, fmt.Errorf("unknown profile: %q", name)
 	}
 
 	claims := entry.Profile.GetClaims()
